@@ -524,28 +524,52 @@ Section Decode.
     destruct Hin as [Hin _]. eapply in_combine_l; exact Hin.
   Qed.
 
-  Lemma get_routes_unfold x sel :
-    sel <> [] -> all_some (map (nth_error (vars I)) (nonzero x)) = Some sel ->
+  Lemma nonzero_length x :
+    length x = num_variables I -> length (nonzero x) = length (selected I x).
+  Proof.
+    intros Hl. rewrite num_variables_length in Hl.
+    pose proof (nonzero_selected_gen (vars I) x [] (eq_sym Hl)) as H. cbn [app length] in H.
+    apply (f_equal (@length _)) in H. rewrite !map_length in H.
+    unfold nonzero, enumerate_list, selected. rewrite !map_length. exact H.
+  Qed.
+
+  Lemma get_routes_unfold x :
+    length x = num_variables I -> selected I x <> [] ->
     get_routes I x =
-    match routes_loop (length (sortV sel)) g (sortV sel) [] (repeat 0 N) with
+    match routes_loop (length (sortV (selected I x))) g (sortV (selected I x)) [] (repeat 0 N) with
     | Err e => Err e
     | Ok (rs, vis) => if forallb (fun c => c =? 1) (tl vis) then Ok rs else Err AssertionError
     end.
   Proof.
-    intros Hne H. unfold get_routes. cbv zeta. rewrite H.
-    destruct sel as [|s0 sl]; [congruence | reflexivity].
+    intros Hl Hne. unfold get_routes. pose proof (nonzero_length x Hl) as Hlen.
+    pose proof (nonzero_selected x Hl) as H.
+    destruct (nonzero x) as [|k ks] eqn:En.
+    - destruct (selected I x); [congruence | discriminate].
+    - cbv zeta. rewrite H. reflexivity.
+  Qed.
+
+  Lemma get_routes_empty x :
+    length x = num_variables I -> selected I x = [] ->
+    get_routes I x = if Nat.leb N 1 then Ok [] else Err AssertionError.
+  Proof.
+    intros Hl He. unfold get_routes. pose proof (nonzero_length x Hl) as Hlen. rewrite He in Hlen.
+    destruct (nonzero x); [reflexivity | discriminate].
   Qed.
 
   Theorem decode_of_local x :
-    (2 <= N)%nat -> length x = num_variables I -> local_form I x ->
+    length x = num_variables I -> local_form I x ->
     exists mss, get_routes I x = Ok (map route_of mss) /\
                 Permutation (selected I x) (concat mss) /\ Forall walk mss.
   Proof.
-    intros HN Hl HL.
-    assert (Hne : selected I x <> []).
-    { destruct (HL 1%nat) as (t & H1 & _); [fold g; fold N; lia|].
-      intros E. rewrite E in H1. discriminate. }
-    rewrite (get_routes_unfold x (selected I x) Hne (nonzero_selected x Hl)).
+    intros Hl HL.
+    destruct (selected I x) as [|s0 sl] eqn:Esel.
+    { (* nothing selected: only possible without customers *)
+      exists []. rewrite (get_routes_empty x Hl Esel).
+      destruct (Nat.leb_spec N 1) as [HN|HN]; [repeat split; constructor|]. exfalso.
+      destruct (HL 1%nat) as (t & H1 & _); [fold g; fold N; lia|]. rewrite Esel in H1. discriminate. }
+    rewrite <- Esel in *.
+    assert (Hne : selected I x <> []) by (rewrite Esel; discriminate).
+    rewrite (get_routes_unfold x Hl Hne).
     pose proof (sortV_perm (selected I x)) as Hps.
     destruct (routes_loop_ok (length (sortV (selected I x))) (sortV (selected I x)) [] (repeat 0 N))
       as (mss & vis' & El & Hp & Hw & Hva).
@@ -658,22 +682,14 @@ Proof.
   assert (Hcnt : forall routes, Permutation (selected I x) (concat routes) ->
                  forall j, (1 <= j < length (nodes (ig I)))%nat -> cnt (into_node j) (concat routes) = 1%nat).
   { intros routes Hp j Hj. rewrite <- (cnt_perm _ _ _ Hp). destruct (HL j Hj) as (t & H1 & _). exact H1. }
-  destruct (le_lt_dec 2 (length (nodes (ig I)))) as [HN|HN].
-  - destruct (decode_of_local I Hwf Hpos x HN Hl HL) as (mss & _ & Hp & Hw).
-    exists (flat_map split_depot mss).
-    assert (Hp' : Permutation (selected I x) (concat (flat_map split_depot mss)))
-      by (rewrite concat_flat_map_split; exact Hp).
-    split; [exact Hp'|]. split; [|split; [apply Hvalid; exact Hp' | apply Hcnt; exact Hp']].
-    apply Forall_forall. intros r Hr. apply in_flat_map in Hr. destruct Hr as (ms & Hms & Hr).
-    rewrite Forall_forall in Hw. pose proof (split_depot_walk ms (Hw ms Hms)) as Hs.
-    rewrite Forall_forall in Hs. apply Hs; exact Hr.
-  - (* no customer: every selected move is a depot self-move, a route of its own *)
-    exists (map (fun v => [v]) (selected I x)).
-    pose proof (concat_map_singleton (selected I x)) as Hc.
-    split; [rewrite Hc; reflexivity|]. split; [|split; [apply Hvalid; rewrite Hc; reflexivity | intros j Hj; lia]].
-    apply Forall_forall. intros r Hr. apply in_map_iff in Hr. destruct Hr as (v & <- & Hv).
-    apply (selected_in_vars I x) in Hv. destruct (var_nodes_lt I Hwf v Hv) as [Ho Hd].
-    split; [|lia]. cbn. repeat split; auto. lia.
+  destruct (decode_of_local I Hwf Hpos x Hl HL) as (mss & _ & Hp & Hw).
+  exists (flat_map split_depot mss).
+  assert (Hp' : Permutation (selected I x) (concat (flat_map split_depot mss)))
+    by (rewrite concat_flat_map_split; exact Hp).
+  split; [exact Hp'|]. split; [|split; [apply Hvalid; exact Hp' | apply Hcnt; exact Hp']].
+  apply Forall_forall. intros r Hr. apply in_flat_map in Hr. destruct Hr as (ms & Hms & Hr).
+  rewrite Forall_forall in Hw. pose proof (split_depot_walk ms (Hw ms Hms)) as Hs.
+  rewrite Forall_forall in Hs. apply Hs; exact Hr.
 Qed.
 
 (* ====================================================================== *)
